@@ -104,7 +104,7 @@ func foreignResult(h *History) (string, string) {
 func sortedOrder(h *History) (string, string) {
 	for i := range h.Ops {
 		o := &h.Ops[i]
-		if o.Kind != "walk" || !o.Sorted {
+		if (o.Kind != "walk" && o.Kind != "nwalk" && o.Kind != "nstr") || !o.Sorted {
 			continue
 		}
 		for k := 1; k < len(o.KV); k++ {
@@ -170,7 +170,8 @@ func readerDeleteAtomicity(h *History) (class, msg string, st rdStats) {
 	var visits, dels, writers []int
 	for i := range ops {
 		switch o := &ops[i]; {
-		case o.Kind == "query" || o.Kind == "walk":
+		case (o.Kind == "query" || o.Kind == "walk") && !subNodeVisit(o):
+			// (a visit that starts at a sub-tree node holds that node's read lock, not the root's)
 			visits = append(visits, i)
 		case isDelKind(o.Kind):
 			dels = append(dels, i)
